@@ -311,6 +311,11 @@ impl Outcome {
     }
 }
 
+/// Memory cap for captured renderings: conflicts of the deep-chain stage have legitimate
+/// messages of gigabytes (indentation grows with the depth); past the cap the text is
+/// truncated without a verdict.
+const RENDER_CAP: usize = 8 << 20;
+
 struct BoundedString {
     s: String,
     limit: usize,
@@ -318,6 +323,10 @@ struct BoundedString {
 }
 impl std::fmt::Write for BoundedString {
     fn write_str(&mut self, x: &str) -> std::fmt::Result {
+        if self.s.len() + x.len() > RENDER_CAP && self.limit > RENDER_CAP {
+            // truncated, not a verdict
+            return Err(std::fmt::Error);
+        }
         if self.s.len() + x.len() > self.limit {
             self.overflow = true;
             return Err(std::fmt::Error);
